@@ -21,6 +21,7 @@ import (
 	"github.com/bufbuild/buf/private/pkg/protoencoding"
 	"github.com/bufbuild/buf/private/pkg/slogext"
 	"github.com/bufbuild/buf/private/pkg/storage"
+	"github.com/bufbuild/buf/private/pkg/storage/storagemem"
 	"github.com/bufbuild/buf/private/pkg/wasm"
 	"google.golang.org/protobuf/reflect/protoreflect"
 	"google.golang.org/protobuf/types/descriptorpb"
@@ -115,6 +116,15 @@ func (m *bsim) moreOutputs(ctx context.Context, moduleSet bufmodule.ModuleSet, i
 		res.outputs["filtered-image"] = strings.Join(names, ",") + "\n" + string(data)
 	}
 
+	// the image as the command line writes it for the same workspace on disk (flags in this execution's order)
+	if m.cliRoot != "" {
+		_, data, err := m.cliBuild(ctx, m.cliRoot)
+		if err != nil {
+			return fmt.Errorf("buf build on disk: %w", err)
+		}
+		res.outputs["cli-image"] = string(data)
+	}
+
 	// lint
 	client, err := bufcheck.NewClient(slogext.NopLogger, bufcheck.NewLocalRunnerProvider(wasm.UnimplementedRuntime, bufplugin.NopPluginKeyProvider, bufplugin.NopPluginDataProvider))
 	if err != nil {
@@ -185,6 +195,26 @@ func (m *bsim) moreOutputs(ctx context.Context, moduleSet bufmodule.ModuleSet, i
 		return fmt.Errorf("format: %w", err)
 	}
 	res.outputs["format"] = fm.String()
+
+	// `buf format` of a tree in which exactly ONE file does not parse: what the user is told (the
+	// failure text) is part of the output too, and with a single broken file it does not depend on
+	// how many workers format the other files or in which order they finish
+	if m.withFormatBroken {
+		files := map[string][]byte{}
+		for p, f := range m.ws.Files {
+			files[p] = []byte(f.Content)
+		}
+		files["zz/broken.proto"] = []byte("syntax = \"proto3\";\npackage zz;\nmessage Broken { string = 1; }\n")
+		bucket, err := storagemem.NewReadBucket(files)
+		if err != nil {
+			return fmt.Errorf("format (broken): %w", err)
+		}
+		_, ferr := bufformat.FormatBucket(ctx, bucket)
+		if ferr == nil {
+			return fmt.Errorf("format (broken): a file that does not parse was formatted without error")
+		}
+		res.outputs["format-error"] = ferr.Error()
+	}
 
 	// `buf format -d`: the unified diffs of the files that would change, one after the other (this
 	// shells out to diff(1) once per changed file, so only some runs produce this output)
